@@ -883,3 +883,64 @@ def locators_are_the_cells_that_carry_the_lattice_id(i: int, j: int, ids: int, p
     ml = g.getMultiLocator(sg, latticeIDs)
     assert isinstance(ml, MultiIndexLocation) and len(ml) == len(cells), "multiplicity = number of lattice positions"
     assert [(l.i, l.j) for l in ml] == cells
+
+
+@lemma(overrides=BLK, gen={"kind": (0, 5), "p": (0.5, 30.0), "q": (0.5, 30.0), "n": (1, 3)})
+def spatial_grid_has_the_specified_geometry_and_pitch(kind: int, p: float, q: float, n: int, noPitch: bool):
+    """GridBlueprint._constructSpatialGrid / _getMaxIndex (+ HexGrid.fromPitch, CartesianGrid.fromRectangle): hex flats-up / corners-up
+    (third, full) and Cartesian (full, odd window through the centre / even window offset): the grid has the class, the
+    orientation and the lattice pitch of the blueprint (unit pitch when none is given), spans the contents plus the rings for
+    edge assemblies, and carries geometry and symmetry as given; contents reach out to index n = 1..3."""
+    assume(p > 0 and q > 0)
+    kind, n = choose(kind, 0, 5), choose(n, 1, 3)
+    geom = ("hex", "hex", "hex_corners_up", "hex_corners_up", "cartesian", "cartesian")[kind]
+    sym = ("third periodic", "full", "third periodic", "full", "full", "full")[kind]
+    if kind < 4:
+        contents = {(0, 0): "C", (n, 0): "A", (0, 1): "B"}
+    elif kind == 4:
+        contents = {(i, j): "A" for i in range(-n, n + 1) for j in range(-1, 2)}  # (2n+1) x 3 window
+        if n == 1:
+            contents = {(i, j): "A" for i in range(-1, 2) for j in range(-1, 2)}
+    else:
+        contents = {(i, j): "A" for i in range(-n, n) for j in range(-n, n)}  # even window
+    g = GridBlueprint("core", geom, None, sym, contents, None)
+    g.latticeDimensions = None if noPitch else Triplet(p, q, 0.0)
+    sg = g._constructSpatialGrid()
+    px, py = (1.0, 1.0) if noPitch else (p, q)
+    assert sg._geomType == geom and sg._symmetry == g.symmetry
+    maxIndex = n if kind != 5 else n - 1
+    if kind < 4:
+        assert isinstance(sg, HexGrid) and eq(sg.pitch, px), "hex lattice pitch as given"
+        assert sg.cornersUp == (kind >= 2), "orientation as given"
+        assert sg._unitStepLimits[0] == (-(maxIndex + 2), maxIndex + 2), "room for the contents and the edge assemblies"
+        assert g.symmetry == sym
+    else:
+        assert isinstance(sg, CartesianGrid) and eq(sg.pitch[0], px) and eq(sg.pitch[1], py), "x and y pitch as given"
+        assert sg._unitStepLimits[0] == (-(maxIndex + 1), maxIndex + 1)
+        through = kind == 4 and n == 1
+        off = sg._offset
+        if through:
+            assert g.symmetry != "full" and g.symmetry.startswith("full") and eq(off[0], 0.0) and eq(off[1], 0.0), "square odd window: cell (0,0) is centred on the origin"
+        else:
+            assert g.symmetry == "full" and eq(off[0], px / 2.0) and eq(off[1], py / 2.0), "otherwise the origin is a cell corner"
+
+
+@lemma(overrides=BLK, gen={"case": (0, 4), "t1": (0.0, 3.0), "t2": (0.0, 7.0), "r1": (0.0, 10.0), "r2": (0.0, 20.0)})
+def theta_rz_grid_needs_sorted_bounds(case: int, t1: float, t2: float, r1: float, r2: float):
+    """_constructSpatialGrid for theta-r-z: the grid bounds are the ones given; missing bounds, a missing theta or r entry and
+    unsorted / repeated bounds are refused (InputError)."""
+    case = choose(case, 0, 4)
+    bounds = [None, {"r": [0.0, r1, r2]}, {"theta": [0.0, t1, t2]}, {"theta": [0.0, t1, t2], "r": [0.0, r1, r2]},
+              {"theta": [0.0, t1, t2], "r": [0.0, r1, r2], "z": [0.0, 1.0]}][case]
+    g = GridBlueprint("core", "thetarz", None, "full", {(0, 0): "A"}, bounds)
+    g.latticeDimensions = None
+    try:
+        sg = g._constructSpatialGrid()
+        ok = True
+    except InputError:
+        ok = False
+    good = case >= 3 and 0 < t1 and t1 < t2 and 0 < r1 and r1 < r2
+    assert ok == good, "bounds present and strictly increasing, else refused"
+    if ok:
+        assert isinstance(sg, ThetaRZGrid)
+        assert eq(list(sg._bounds[0]), [0.0, t1, t2]) and eq(list(sg._bounds[1]), [0.0, r1, r2])
